@@ -176,6 +176,25 @@ class Models:
                 yield st, V(STR, z3.Concat(a.term, b.term))
                 return
             if isinstance(op, ast.Mod):
+                # "...%s..." % value(s) with a concrete format of plain %s / %d / %i placeholders is a concatenation
+                okf, fmt = concrete(a)
+                vals = list(b.items) if isinstance(b, VTuple) else [b]
+                if okf and isinstance(fmt, str):
+                    import re as _re
+                    parts = _re.split(r"(%[sdi]|%%)", fmt)
+                    holes = [x for x in parts if x in ("%s", "%d", "%i")]
+                    if len(holes) == len(vals) and "%" not in "".join(x for x in parts if x not in ("%s", "%d", "%i", "%%")):
+                        terms, k = [], 0
+                        for x in parts:
+                            if x in ("%s", "%d", "%i"):
+                                terms.append(eng.to_str(vals[k], st).term)
+                                k += 1
+                            elif x == "%%":
+                                terms.append(z3.StringVal("%"))
+                            elif x:
+                                terms.append(z3.StringVal(x))
+                        yield st, V(STR, z3.Concat(*terms) if len(terms) > 1 else (terms[0] if terms else z3.StringVal("")))
+                        return
                 yield st, fresh(STR, "pctfmt")
                 return
             if isinstance(op, ast.Mult):
